@@ -4,7 +4,7 @@ use super::super::{Instruction, instruction_error::PushInstructionError};
 use crate::{
     error::{Error, InstructionResult, MapInstructionError},
     instruction::NumOpens,
-    push_vm::HasStack,
+    push_vm::{HasStack, stack::StackError},
 };
 
 /// An instruction that swaps the top two values of a stack of type `T`.
@@ -72,6 +72,18 @@ where
     type Error = PushInstructionError;
 
     fn perform(&self, mut state: S) -> InstructionResult<S, Self::Error> {
+        // Putting the two values back only works if the stack is within its maximum
+        // (which may have been lowered below the current size). Check that before
+        // taking anything off the stack so a failure leaves the state unchanged.
+        let stack = state.stack::<T>();
+        if stack.size() >= 2 && stack.size() > stack.max_stack_size() {
+            return Err(Error::fatal(
+                state,
+                StackError::Overflow {
+                    stack_type: std::any::type_name::<T>(),
+                },
+            ));
+        }
         match state.stack_mut::<T>().pop2() {
             Ok((x, y)) => state
                 .with_push(x)
@@ -91,7 +103,7 @@ mod tests {
     use super::*;
     use crate::{
         instruction::Instruction,
-        push_vm::{push_state::PushState, stack::StackError},
+        push_vm::push_state::PushState,
     };
 
     #[test]
